@@ -127,7 +127,7 @@ def tmpl(name):
 
 # ----------------------------------------------------------------------------------------------- one case
 class Case:
-    def __init__(self, names, stop='eof', cut=None, mode='transaction', cache=0, roles=(0,), paused=None, sym_status=False, plugins=False, shards=None, custom=False, params=None, second=None, second_params=None, idle_timeout=False, stmt_timeout=False):
+    def __init__(self, names, stop='eof', cut=None, mode='transaction', cache=0, roles=(0,), paused=None, sym_status=False, plugins=False, shards=None, custom=False, params=None, second=None, second_params=None, idle_timeout=False, stmt_timeout=False, shutdown=False):
         self.names = list(names)
         self.stop = stop              # 'eof' | 'X'
         self.cut = cut                # None or number of bytes of the LAST message delivered before EOF
@@ -137,6 +137,7 @@ class Case:
         self.paused = paused          # None | 'start' | ('after', k): PAUSE arrives while the client is idle before message k
         self.sym_status = sym_status
         self.shards = shards          # None or list of role tuples, one per shard (overrides `roles`)
+        self.shutdown = shutdown           # the shutdown broadcast may arrive at any select! of the session
         self.stmt_timeout = stmt_timeout   # statement_timeout configured: a pg_sleep statement may or may not be answered in time
         self.idle_timeout = idle_timeout   # idle_client_in_transaction_timeout configured: it may fire at any read inside a transaction
         self.second = second          # None or the script (names) of a second client that connects after the first one has gone
@@ -152,6 +153,7 @@ class Case:
         s += '' if len(self.roles) == 1 else '/%dbackends' % len(self.roles)
         s += '/symstatus' if self.sym_status else ''
         s += '' if self.paused is None else '/paused:%s' % (self.paused,)
+        s += '/shutdown' if self.shutdown else ''
         s += '/idle-timeout' if self.idle_timeout else ''
         s += '/statement-timeout' if self.stmt_timeout else ''
         s += '' if not self.second else '/then:%s%s' % ('+'.join(self.second), '' if not self.second_params else sorted(self.second_params.items()))
@@ -224,7 +226,7 @@ def run_case(chk, ob, ip, prog, case, props, extra_judge=None):
         env = HE.HandleEnv(ip_, prog, bks, sent, client_over=client_over, pool_over=pool_over, paused=(case.paused in ('start', 'start-resume')),
                            pending_at=pend, on_pending=on_pending, settings_over=settings_over,
                            boundaries=[sum(len(mm) for mm in msgs[:k]) for k in range(len(msgs) + 1)],
-                           idle_timeout_ms=(400 if case.idle_timeout else 0), statement_timeout_ms=(500 if case.stmt_timeout else 0))
+                           idle_timeout_ms=(400 if case.idle_timeout else 0), statement_timeout_ms=(500 if case.stmt_timeout else 0), shutdown=case.shutdown)
         if case.cache:
             def give_cache(b):
                 setf(prog, b.server, 'Server', 'prepared_statement_cache', some(ip_, lru([], case.cache)))
@@ -247,7 +249,7 @@ def run_case(chk, ob, ip, prog, case, props, extra_judge=None):
             print('  OUT', HE.show(data['client_out']))
             print('  EVENTS', data['events'], data['outcome'])
         dec = HE.Decider(ip_)
-        inc = case.paused is not None and not (case.paused == 'start-resume' or (isinstance(case.paused, tuple) and len(case.paused) > 2))
+        inc = case.shutdown or case.paused is not None and not (case.paused == 'start-resume' or (isinstance(case.paused, tuple) and len(case.paused) > 2))
         denied = None
         eff = complete
         if case.plugins:
@@ -303,6 +305,11 @@ def run_case(chk, ob, ip, prog, case, props, extra_judge=None):
                 cmd['eof'] = False
             if case.params is not None:
                 cmd['startup_params'] = dict(case.params)
+            if case.shutdown:
+                fired = [e[2] for e in env.events if e[0] == 'shutdown']
+                if fired:
+                    pos = fired[0]
+                    cmd['steps'] = ([{'send_hex': hexs[:2 * pos]}] if pos else []) + [{'shutdown': True}, {'send_hex': hexs[2 * pos:]}]
             if case.stmt_timeout:
                 # natively the reference backend sleeps 1.5 s on pg_sleep statements; statement_timeout 500 ms fires, or (witness
                 # without a timeout) the statement timeout is configured far above the sleep
@@ -859,6 +866,16 @@ def h_violation(prop, key, cache_on, incomplete, hexs, n_before=None, denied_hex
                 hit = [1] if ents else []
             else:
                 hit = [1] if not ents else []
+        if prop == 'C17':
+            aout = bytes.fromhex(r.get('a_out', ''))
+            announced = b'terminating connection due to administrator command' in aout and r.get('a_result') == 'ok'
+            n_client = sum(1 for rq in data['reqs'] if rq.get('origin') == 'client')
+            if key == 'H/shutdown-not-announced':
+                hit = [1] if not announced else []
+            else:
+                # the transaction in progress was cut short: fewer of the client's statements reached a backend than it sent inside it
+                hit = [1] if any(v[1] in ('H/request-not-forwarded', 'H/pooler-rollback-mid-session') for v in
+                                 HE.judge(data, complete, dec, cache_on=cache_on)) else []
         if key == 'H/idle-client-keeps-server':
             # the second client (pool of ONE connection) is not served while the first one sits idle outside a transaction
             bout = bytes.fromhex(r.get('b_out', ''))
